@@ -195,7 +195,7 @@ Definition string_toks (k : kind) (p : pkt) : option (list tok) :=
       | KUnsubscribe =>
           [fb p; L " p"; TNum (getN (M F_packetID) p); L ", ";
            TStr (match ufilters p with [] => lit "no filters!" | f :: _ => f end); L ", "] ++ sz
-      | KDisconnect => with_reason false p ([fb p; L " "] ++ sz)
+      | KDisconnect => with_reason true p ([fb p; L " "] ++ sz)
       | _ => [fb p; L " "] ++ sz         (* AUTH, PINGREQ, PINGRESP *)
       end
     end
